@@ -354,7 +354,7 @@ def render(c):
         if seed in DOC_SEEDS:
             return c["role"], DOC_SEEDS[seed].encode("utf-8"), fl
         return "xpath", EXPR_SEEDS[seed].encode("utf-8"), fl
-    if cls in ("truncate", "dropTag", "dupTag", "swapTag", "unclosedQuote") or cls in CHAR_VARIANTS or cls == "unknownXmlEncoding":
+    if cls in ("truncate", "dropTag", "dupTag", "swapTag", "unclosedQuote") or cls in CHAR_VARIANTS or cls in ("unknownXmlEncoding", "xmlDeclVersion"):
         text = DOC_SEEDS[seed]
         b = text.encode("utf-8")
 
@@ -383,7 +383,7 @@ def render(c):
                 a = attrs(text)[i - 1]
                 p = bo(a[0] + 1)
             return c["role"], b[:p] + ins + b[p:], fl
-        decl = '<?xml version="1.0" encoding="%s"?>' % v
+        decl = '<?xml version="1.0" encoding="%s"?>' % v if cls == "unknownXmlEncoding" else '<?xml version="%s" encoding="UTF-8"?>' % v
         body = re.sub(r"^<\?xml[^>]*\?>", "", text)
         return c["role"], (decl + body).encode("utf-8"), fl
     if cls == "wrongXslNamespaceRoot":
